@@ -845,13 +845,17 @@ def _chainlen(t):
 
 def _nest_tags(t, tags):
     """which operator stands directly under which (and-in-or, or-in-and, not-in-not, ...): the nestings a reader
-    or writer may flatten, reorder or un-parenthesise"""
+    or writer may flatten, reorder or un-parenthesise.  A binary inner node counts only when it joins two DIFFERENT
+    names: `(a & a) | a` means the same flattened or not, so it would cover the tag without testing anything."""
     if t.get('op') in (None, 'NIL', 'VAR', 'INT', 'NUM', 'STR'):
         return
     for side in ('l', 'r'):
         k = t.get(side, {})
         if k.get('op') not in (None, 'NIL', 'VAR', 'INT', 'NUM', 'STR'):
-            tags.add('%s-in-%s' % (k['op'].lower(), t['op'].lower()))
+            kl, kr = k.get('l', {}), k.get('r', {})
+            unary = kr.get('op') in (None, 'NIL')
+            if unary or (kl.get('op') == 'VAR' and kr.get('op') == 'VAR' and kl.get('v') != kr.get('v')):
+                tags.add('%s-in-%s' % (k['op'].lower(), t['op'].lower()))
             _nest_tags(k, tags)
 
 
